@@ -73,6 +73,11 @@ func (h *Handler) Handle(ctx context.Context, req packet.Request) (packet.Respon
 		}
 		return nil, errors.New("upstream failed")
 	}
+	if mode == "accept-all" {
+		// a handler that does not validate anything itself: whatever request object reaches it gets a normal-looking response
+		// (refusing out-of-range requests is the library's job, before the handler is called)
+		return RawResponse{B: []byte{raw[0], raw[1], 0, 0, 0, 3, raw[6], raw[7], 0x00}, FC: req.FunctionCode()}, nil
+	}
 	switch mode {
 	case "typed-error":
 		return nil, packet.NewErrorParseTCP(code, "handler says no")
